@@ -255,9 +255,10 @@ FALLBACK = {
                     ("io_fail_state", ["C18"], "see bar_draw")],
     "c07_position": [("bar_hidden", ["C06", "C07"], "getters after operation histories, hidden vs visible"),
                      ("pos_arith", ["C07", "C04", "C05"], "inc / dec wrap, inc_length / dec_length saturate, finish variants vs position: 5 x 5 boundary values"),
+                     ("pos_history", ["C07"], "position() / length() against the history-defined model after each of up to 4 operations out of 15 (inc, dec, set_position, set_length, inc_length, dec_length, unset_length, reset, finish, abandon with boundary arguments), hidden and visible bar: 135000 states"),
                      ("bar_reuse", ["C04", "C17"], "finish behaviour at the second completion of a reused bar"),
                      ("est_laws", ["C09"], "see c09_estimator")],
-    "pb_glue": [("pos_arith", ["C07", "C05"], "see c07_position"), ("bar_frames", ["C05"], "see bar_draw")],
+    "pb_glue": [("pos_arith", ["C07", "C05"], "see c07_position"), ("pos_history", ["C07"], "see c07_position"), ("bar_frames", ["C05"], "see bar_draw")],
     "c17_adaptors": [("iter_adaptors", ["C17"], "external / reverse / internal iteration (8 modes x 3 lengths, second handle on the bar), Read with 5 chunk scripts x 3 buffer sizes incl. errors, read_exact, read_to_string, interleaved fill_buf / consume, 9 seeks x 2 bar offsets, Write / write_vectored with 4 chunk scripts")],
     "c13_format_bar": [("bar_cells", ["C13"], "{bar:N} geometry for 6 widths x 9 lengths (up to 2^24) x 8 positions on the real f32 code")],
     "c16_tabs": [("tabs_everywhere", ["C16", "C06"], "message / prefix / literal tabs after every sequence of 3 operations out of 7 (set_message, set_prefix, set_tab_width x2, set_style x2, finish_with_message) x 2 initial widths; custom keys writing a tab as str, char and format argument")],
